@@ -168,6 +168,8 @@ func (h *concHarness) Gen(r *Rand, tier string, clean bool) any {
 					op.Opt = r.Intn(len(c.Opts))
 				}
 				op.Done = r.Chance(0.08)
+			case "qselect":
+				op.Done = r.Chance(0.15) // a statement whose context is already done (the request timed out before it started)
 			}
 			ops = append(ops, op)
 		}
@@ -575,7 +577,14 @@ func (h *concHarness) Run(t *testing.T, ci any) *Outcome {
 						ev.in.byName = true
 						ev.in.k = "lookup"
 						ev.in.lc = &LookupCall{M: MTriples}
-						tbl, err := server.BQL(ctx, "SELECT ?s, ?p, ?o FROM "+name+" WHERE { ?s ?p ?o };", st, c.Cap, 10)
+						qctx := ctx
+						if op.Done {
+							dctx, cancel := context.WithCancel(ctx)
+							cancel()
+							qctx = dctx
+							ev.in.ctxDone = true
+						}
+						tbl, err := server.BQL(qctx, "SELECT ?s, ?p, ?o FROM "+name+" WHERE { ?s ?p ?o };", st, c.Cap, 10)
 						ev.ret = sim.Stamp()
 						ev.out.err = err != nil
 						if err == nil {
